@@ -22,6 +22,10 @@ ASSUMPTIONS = [
     "coordinates and region bounds lie in the int64 range and Start+1 does not overflow",
     "for text laid out by the independent WRITER a line beginning with '#' is a comment by GFF3's own rule, so a feature line of a "
     "document does not begin with '#' (wfFeatLine); for records given to Build see the known finding in PARTIAL",
+    "the coordinate clause speaks of 'bases start..end of the file's sequence': GetSequence of a feature whose span [start, end) does not lie "
+    "inside the sequence (0 <= start <= end <= len) is outside the quantifier — per FEATURE its GetSequence reply (today a slice panic) is "
+    "neither judged nor compared with the model (class …/getseq-outside-drift when it differs); its coordinates and columns, and every "
+    "other feature of the same record, stay judged and compared",
     "a case outside the quantifier is not judged, EXCEPT that a timeout / crash / panic where the model predicts a normal return is a FAIL",
     "NARROWING: Meta.GffVersion free of blank and newline is a hypothesis of parse_build only; the judge still judges records whose "
     "version holds a blank (the version is not a judged field)",
